@@ -64,7 +64,7 @@ def gen_config(ctx, pid):
     q = ctx.quick()
     return dict(n=(2500 if q else 12000), seeds=[ctx.seed] if q else [ctx.seed, ctx.seed + 1000, ctx.seed + 2000])
 
-def run_engine_property(ctx, pid, oracles, feat=None, faults=0.25, n=None, nsteps=(1, 6), nedges=(2, 9), extra_hists=None, wf_reads=True):
+def run_engine_property(ctx, pid, oracles, feat=None, faults=0.25, n=None, nsteps=(1, 6), nedges=(2, 9), extra_hists=None, wf_reads=True, plan_accept=0):
     cfg = gen_config(ctx, pid)
     n = n or cfg['n']
     known = {k.get('id') for k in ctx.known_list if k.get('property') == pid}
@@ -110,6 +110,21 @@ def run_engine_property(ctx, pid, oracles, feat=None, faults=0.25, n=None, nstep
         if len(samples) < 3 and prs:
             samples.append({'scenario': h.sid, 'manifest': h.g.manifest()[:400], 'steps': [s.line[:120] for s in h.steps[:6]],
                             'first_build_started': prs[0][1].started})
+    # trace acceptance by the extracted plan/build-loop model (dyndep-free scenarios): refinement by state comparison
+    accept = {}
+    if plan_accept and ctx.model:
+        import planmodel
+        os.environ['PLAN_MODEL_RUN'] = os.path.join(os.path.dirname(ctx.model), 'plan_run')
+        planmodel._BIN = None
+        nodd = [h for h in hists if not h.g0.dd_info and not any(getattr(s_, 'g', None) is not None and s_.g.dd_info for s_ in h.steps)]
+        crashed = {hh.sid for hh, _, _ in getattr(ec.run_hists, 'crashes', [])}
+        nodd = [h for h in nodd if h.sid not in crashed][:plan_accept]
+        mism, stats = planmodel.check_hists(nodd, out)
+        accept = dict(stats)
+        for sid, v in list(mism.items())[:5]:
+            ctx.corr_broken.append('plan model rejects ninja\'s trace of scenario %s: %s' % (sid, '; '.join(v[:2])))
+            hh = [h for h in nodd if h.sid == sid]
+            if hh: ctx.replay_file('plan-mismatch', hh[0].text())
     kinds = {}
     for h in hists:
         for s in h.steps: kinds[s.kind] = kinds.get(s.kind, 0) + 1
@@ -118,5 +133,5 @@ def run_engine_property(ctx, pid, oracles, feat=None, faults=0.25, n=None, nstep
                         'validations, pools, rspfile) x histories of %d-%d change steps (edit/touch/rm output/command+rsp change/deps change/droplog/dropdeps) x builds with '
                         'random targets, -j, -k, completion schedules and failing commands; one evaluation = one ninja invocation; non-trivial = it started at least one command' % (
                             nedges[0], nedges[1] - 1, nsteps[0], nsteps[1] - 1),
-                   samples=samples, distribution=dict(scenarios=len(hists), steps=kinds))
+                   samples=samples, distribution=dict(scenarios=len(hists), steps=kinds), traces_validated_against_model=accept.get('replayed', 0), plan_model_acceptance=accept)
     return hists, tr
